@@ -136,8 +136,9 @@ type manager struct {
 	id    int
 	kind  string
 	cells []int // cells guarded by this manager, increasing; cell cells[i] is index i+1 of a function value
-	mgr   *resources.LocalSharedManager
-	watch resources.Persistable
+	mgr    *resources.LocalSharedManager
+	watch  resources.Persistable
+	watch2 resources.Persistable // for observations made while a section holds the variable
 }
 
 func (m *manager) isFn() bool  { return m.kind == "fn" || m.kind == "persfn" || m.kind == "mapfn" }
@@ -445,6 +446,10 @@ type caseRun struct {
 	timeout time.Duration
 	wd      time.Duration // hang watchdog
 
+	asyncObs sync.WaitGroup
+	nAsync   atomic.Int32 // GetState() calls in flight (they hold a lock for an instant: no lc sampling then)
+	asyncOn  []bool       // per manager: an observation is already queued
+
 	mu    sync.Mutex
 	items []rec // P-level items of the case
 	tr    []rec // M-level events
@@ -484,6 +489,9 @@ func (cr *caseRun) lc() []int {
 			return []int{}
 		}
 	}
+	if cr.nAsync.Load() != 0 {
+		return []int{}
+	}
 	out := make([]int, len(cr.mgrs))
 	for i, m := range cr.mgrs {
 		n := m.lockLen()
@@ -510,6 +518,7 @@ func (cr *caseRun) build() {
 		}
 	}
 	cr.holder = make([]int, nm)
+	cr.asyncOn = make([]bool, nm)
 	for m := 1; m <= nm; m++ {
 		mg := &manager{id: m, kind: c.Kinds[m-1]}
 		for ci, mm := range c.LockOf {
@@ -539,6 +548,7 @@ func (cr *caseRun) build() {
 			mg.mgr = resources.NewLocalSharedManager(init) // the default (50 ms)
 		}
 		mg.watch = mg.mgr.MakeLocalShared()
+		mg.watch2 = mg.mgr.MakeLocalShared()
 		cr.mgrs = append(cr.mgrs, mg)
 	}
 	arch := func(s *sharer) distsys.MPCalArchetype {
@@ -877,28 +887,62 @@ func (cr *caseRun) observe(m *manager) bool {
 		}
 	}
 	s1 := cr.stamp()
+	ops := decodeObs(m, got.b, got.err)
+	tv := []int{}
+	for _, o := range ops {
+		tv = append(tv, o.V)
+	}
+	cr.addTxn(0, s0, s1, ops)
+	cr.temit(rec{"e": "obs", "m": m.id, "vals": tv, "lc": cr.lc()})
+	return true
+}
+
+// observeAsync calls GetState() of a manager whose variable is held by a section in flight: the
+// call must wait for the section to end (and then show committed values only). It completes on
+// its own; the item carries the stamps of call and return. P-level only.
+func (cr *caseRun) observeAsync(m *manager) {
+	cr.mu.Lock()
+	busy := cr.asyncOn[m.id-1]
+	cr.asyncOn[m.id-1] = true
+	cr.mu.Unlock()
+	if busy {
+		return
+	}
+	cr.asyncObs.Add(1)
+	cr.nAsync.Add(1)
+	s0 := cr.stamp()
+	go func() {
+		defer cr.asyncObs.Done()
+		b, err := m.watch2.GetState()
+		s1 := cr.stamp()
+		cr.nAsync.Add(-1)
+		ops := decodeObs(m, b, err)
+		cr.addTxn(0, s0, s1, ops)
+		cr.mu.Lock()
+		cr.asyncOn[m.id-1] = false
+		cr.mu.Unlock()
+	}()
+}
+
+func decodeObs(m *manager, b []byte, err error) []opRec {
 	var v tla.Value
 	vals := []int{-7}
-	if got.err == nil {
-		if err := gob.NewDecoder(bytes.NewReader(got.b)).Decode(&v); err == nil {
+	if err == nil {
+		if err := gob.NewDecoder(bytes.NewReader(b)).Decode(&v); err == nil {
 			vals = tupleInts(v)
 		} else {
 			vals = []int{-8}
 		}
 	}
 	ops := []opRec{}
-	tv := []int{}
 	for i, c := range m.cells {
 		x := -6
 		if i < len(vals) {
 			x = vals[i]
 		}
 		ops = append(ops, opRec{"r", c, x})
-		tv = append(tv, x)
 	}
-	cr.addTxn(0, s0, s1, ops)
-	cr.temit(rec{"e": "obs", "m": m.id, "vals": tv, "lc": cr.lc()})
-	return true
+	return ops
 }
 
 func (cr *caseRun) gated() {
@@ -987,7 +1031,15 @@ func (cr *caseRun) gated() {
 			if cr.holder[st.M-1] != 0 {
 				continue
 			}
+			if cr.nAsync.Load() != 0 { // keep the blocking observer out of the way of a queued one
+				continue
+			}
 			cr.observe(cr.mgrs[st.M-1])
+		case "obsa":
+			if cr.holder[st.M-1] == 0 {
+				continue
+			}
+			cr.observeAsync(cr.mgrs[st.M-1])
 		}
 	}
 	// close whatever the walk left open
@@ -1010,6 +1062,31 @@ func (cr *caseRun) gated() {
 }
 
 func (cr *caseRun) stress() {
+	// an observer calls GetState() of the managers in turn while the sharers run
+	var stop atomic.Bool
+	obsDone := make(chan struct{})
+	go func() {
+		defer close(obsDone)
+		for i := 0; !stop.Load(); i++ {
+			m := cr.mgrs[i%len(cr.mgrs)]
+			s0 := cr.stamp()
+			b, err := m.watch2.GetState()
+			s1 := cr.stamp()
+			cr.addTxn(0, s0, s1, decodeObs(m, b, err))
+			time.Sleep(300 * time.Microsecond)
+		}
+	}()
+	defer func() {
+		stop.Store(true)
+		if !cr.hung {
+			select {
+			case <-obsDone:
+			case <-time.After(cr.wd):
+				cr.event(rec{"e": "watchdog", "what": "stress observer did not stop"})
+				cr.hung = true
+			}
+		}
+	}()
 	// every sharer runs freely until its quota is reached; then it parks at the gate
 	deadline := time.After(cr.wd * 6)
 	for _, s := range cr.sh {
@@ -1048,6 +1125,19 @@ func (cr *caseRun) epilogue() {
 	k := cr.c.Probes
 	if k <= 0 {
 		k = 3
+	}
+	// observations queued behind a section complete now that every section has ended
+	if cr.nAsync.Load() != 0 {
+		done := make(chan struct{})
+		go func() { cr.asyncObs.Wait(); close(done) }()
+		select {
+		case <-done:
+		case <-time.After(cr.wd):
+			if cr.confirm(func() bool { return cr.nAsync.Load() == 0 }) {
+				cr.reportHang(nil, "GetState() called during a section did not return after every section had ended")
+				return
+			}
+		}
 	}
 	soloFailed := false
 	for _, s := range cr.sh {
